@@ -18,10 +18,16 @@ import (
 	"google.golang.org/grpc/balancer"
 	"google.golang.org/grpc/codes"
 	"google.golang.org/grpc/connectivity"
+	"google.golang.org/grpc/internal/balancer/stub"
+	internalserviceconfig "google.golang.org/grpc/internal/serviceconfig"
 	"google.golang.org/grpc/internal/wrr"
 	"google.golang.org/grpc/internal/xds/clients"
+	"google.golang.org/grpc/internal/xds/testutils/fakeclient"
 	"google.golang.org/grpc/internal/xds/xdsclient"
+	"google.golang.org/grpc/internal/xds/xdsclient/xdsresource"
 	"google.golang.org/grpc/internal/zzverif/vlib"
+	"google.golang.org/grpc/internal/zzverif/vlib/lbtest"
+	"google.golang.org/grpc/resolver"
 	"google.golang.org/grpc/status"
 )
 
@@ -125,6 +131,61 @@ func c38Counter(p *picker) int {
 	return int(v)
 }
 
+// picks (0: child succeeds, 1: child fails) and completions (2: oldest, 3: newest) on one picker; at the end every
+// open RPC is finished and one more pick probes that RPCs are admitted again
+func c38Ops(tr *vlib.Trace, p *picker, child *c38Child, ops []int) {
+	var open []func(balancer.DoneInfo)
+	done := func(i int) {
+		f := open[i]
+		open = append(open[:i], open[i+1:]...)
+		f(balancer.DoneInfo{})
+		tr.Emit(map[string]any{"ev": "cbdone", "cnt": c38Counter(p)})
+	}
+	for _, op := range ops {
+		switch op {
+		case 0, 1: // pick (child succeeds / child fails)
+			child.fail = op == 1
+			before := child.calls
+			pr, err := p.Pick(balancer.PickInfo{Ctx: context.Background()})
+			res := "ok"
+			if err != nil {
+				res = "cb"
+				if child.calls != before {
+					res = "childerr"
+				}
+			} else if pr.Done != nil {
+				open = append(open, pr.Done)
+			} else {
+				open = append(open, func(balancer.DoneInfo) {})
+			}
+			tr.Emit(map[string]any{"ev": "cbpick", "res": res, "cnt": c38Counter(p)})
+		case 2: // oldest RPC finishes
+			if len(open) > 0 {
+				done(0)
+			}
+		case 3: // newest RPC finishes
+			if len(open) > 0 {
+				done(len(open) - 1)
+			}
+		}
+	}
+	for len(open) > 0 {
+		done(0)
+	}
+	// after everything finished a new RPC must be admitted again (max > 0)
+	child.fail = false
+	pr, err := p.Pick(balancer.PickInfo{Ctx: context.Background()})
+	res := "ok"
+	if err != nil {
+		res = "cb"
+	}
+	tr.Emit(map[string]any{"ev": "cbpick", "res": res, "cnt": c38Counter(p)})
+	if err == nil && pr.Done != nil {
+		pr.Done(balancer.DoneInfo{})
+		tr.Emit(map[string]any{"ev": "cbdone", "cnt": c38Counter(p)})
+	}
+}
+
 // one sequence of picks / completions against a fresh request counter
 func c38Breaker(tr *vlib.Trace, max uint32, ops []int) {
 	c38Safe(tr, "cb", func() {
@@ -137,55 +198,72 @@ func c38Breaker(tr *vlib.Trace, max uint32, ops []int) {
 			countMax:  max,
 		}
 		tr.Emit(map[string]any{"ev": "cbbegin", "max": int(max)})
-		var open []func(balancer.DoneInfo)
-		done := func(i int) {
-			f := open[i]
-			open = append(open[:i], open[i+1:]...)
-			f(balancer.DoneInfo{})
-			tr.Emit(map[string]any{"ev": "cbdone", "cnt": c38Counter(p)})
-		}
-		for _, op := range ops {
-			switch op {
-			case 0, 1: // pick (child succeeds / child fails)
-				child.fail = op == 1
-				before := child.calls
-				pr, err := p.Pick(balancer.PickInfo{Ctx: context.Background()})
-				res := "ok"
-				if err != nil {
-					res = "cb"
-					if child.calls != before {
-						res = "childerr"
+		c38Ops(tr, p, child, ops)
+		tr.Reset()
+	})
+}
+
+// circuit breaking configured through the real cluster_impl balancer: a sequence of cluster configurations
+// with max_requests values (-1 = not set) is pushed through UpdateClientConnState; after every configuration
+// the picker the balancer published is driven with picks / completions (all RPCs are finished before the next
+// configuration, so the in-flight count is 0 at every "cbbegin").
+func c38ConfigPath(tr *vlib.Trace, r *rand.Rand, maxes []int) {
+	c38Safe(tr, "cbcfg", func() {
+		c38Seq++
+		cluster := fmt.Sprintf("c38-cfg-cluster-%d", c38Seq)
+		child := &c38Child{}
+		childName := fmt.Sprintf("c38-stub-child-%d", c38Seq)
+		stub.Register(childName, stub.BalancerFuncs{
+			UpdateClientConnState: func(bd *stub.BalancerData, _ balancer.ClientConnState) error {
+				bd.ClientConn.UpdateState(balancer.State{ConnectivityState: connectivity.Ready, Picker: child})
+				return nil
+			},
+		})
+		cc := lbtest.NewRecCC()
+		b := balancer.Get(Name).Build(cc, balancer.BuildOptions{})
+		defer b.Close()
+		xdsC := fakeclient.NewClient()
+		eps := []resolver.Endpoint{{Addresses: []resolver.Address{{Addr: "10.9.8.7:1"}}}}
+		for _, mx := range maxes {
+			cu := &xdsresource.ClusterUpdate{ClusterName: cluster, ClusterType: xdsresource.ClusterTypeEDS, EDSServiceName: "c38-eds"}
+			eff := 1024 // the documented default when max_requests is not set
+			if mx >= 0 {
+				v := uint32(mx)
+				cu.MaxRequests = &v
+				eff = mx
+			}
+			state := xdsclient.SetClient(resolver.State{Endpoints: eps}, xdsC)
+			state = xdsresource.SetXDSConfig(state, &xdsresource.XDSConfig{Clusters: map[string]*xdsresource.ClusterResult{
+				cluster: {Config: xdsresource.ClusterConfig{Cluster: cu, EndpointConfig: &xdsresource.EndpointConfig{EDSUpdate: &xdsresource.EndpointsUpdate{}}}},
+			}})
+			if err := b.UpdateClientConnState(balancer.ClientConnState{ResolverState: state,
+				BalancerConfig: &LBConfig{Cluster: cluster, ChildPolicy: &internalserviceconfig.BalancerConfig{Name: childName}}}); err != nil {
+				panic(fmt.Sprintf("UpdateClientConnState: %v", err))
+			}
+			var p *picker
+			for _, ev := range cc.Take() {
+				if ev.Kind == "update_state" {
+					if pp, ok := ev.Pick.(*picker); ok {
+						p = pp
 					}
-				} else if pr.Done != nil {
-					open = append(open, pr.Done)
-				} else {
-					open = append(open, func(balancer.DoneInfo) {})
-				}
-				tr.Emit(map[string]any{"ev": "cbpick", "res": res, "cnt": c38Counter(p)})
-			case 2: // oldest RPC finishes
-				if len(open) > 0 {
-					done(0)
-				}
-			case 3: // newest RPC finishes
-				if len(open) > 0 {
-					done(len(open) - 1)
 				}
 			}
-		}
-		for len(open) > 0 {
-			done(0)
-		}
-		// after everything finished a new RPC must be admitted again (max > 0)
-		child.fail = false
-		pr, err := p.Pick(balancer.PickInfo{Ctx: context.Background()})
-		res := "ok"
-		if err != nil {
-			res = "cb"
-		}
-		tr.Emit(map[string]any{"ev": "cbpick", "res": res, "cnt": c38Counter(p)})
-		if err == nil && pr.Done != nil {
-			pr.Done(balancer.DoneInfo{})
-			tr.Emit(map[string]any{"ev": "cbdone", "cnt": c38Counter(p)})
+			if p == nil {
+				panic("no picker published after a configuration update")
+			}
+			tr.Emit(map[string]any{"ev": "cbbegin", "max": eff, "via": "config", "set": mx >= 0})
+			var ops []int
+			k := eff
+			if k > 5 {
+				k = 5
+			}
+			for i := 0; i < k+2; i++ { // more picks than allowed
+				ops = append(ops, 0)
+			}
+			for i := 0; i < 4+r.Intn(8); i++ {
+				ops = append(ops, []int{0, 0, 1, 2, 3}[r.Intn(5)])
+			}
+			c38Ops(tr, p, child, ops)
 		}
 		tr.Reset()
 	})
@@ -273,5 +351,19 @@ func TestVerifC38Cluster(t *testing.T) {
 		c38Breaker(tr, max, ops)
 		nb++
 	}
-	fmt.Printf("VERIF_SUMMARY {\"dropcfgs\":%d,\"cbseqs\":%d,\"events\":%d}\n", nd, nb, tr.N)
+	// max_requests set through the real balancer configuration (first configuration and updates)
+	ncfg := 0
+	for _, seq := range [][]int{{3, 1, 0, 2, 0}, {0}, {0, 1}, {1, 0}, {-1, 0, -1}, {2, 3, 0, 0, 1}, {0, 3}} {
+		c38ConfigPath(tr, r, seq)
+		ncfg++
+	}
+	for i := 0; i < n; i++ {
+		seq := make([]int, 1+r.Intn(6))
+		for j := range seq {
+			seq[j] = []int{0, 1, 2, 3, 0, -1}[r.Intn(6)]
+		}
+		c38ConfigPath(tr, r, seq)
+		ncfg++
+	}
+	fmt.Printf("VERIF_SUMMARY {\"dropcfgs\":%d,\"cbseqs\":%d,\"cfgseqs\":%d,\"events\":%d}\n", nd, nb, ncfg, tr.N)
 }
